@@ -264,9 +264,42 @@ def run_case(seed, i, tier):
             p2.signals = [k, k + rng.randint(1, 40)]
         res = run_with(scn, p2)
         account(res, p2, "sigint")
+    # ---- disk-full and broken-pipe faults (preload/seed.c): TMPDIR must be empty after these exits too ----
+    tmp_total = sum(len(fixtures.load(d["fixture"])) for d in descr if d.get("container"))
+    io_runs = []
+    if tmp_total:
+        cand = {0, 1, tmp_total - 1, rng.randrange(tmp_total), rng.randrange(min(tmp_total, 70000)),
+                65536 * rng.randint(1, max(1, tmp_total // 65536)) + rng.choice((-1, 0, 1))}
+        cand = sorted(c for c in cand if 0 <= c < tmp_total)
+        rng.shuffle(cand)
+        for c in cand[:2 if quick else 6]:
+            io_runs.append(("enospc=%d" % c, "tmpdir_full"))
+    if base.stdout:
+        cand = {0, 1, len(base.stdout) - 1, rng.randrange(len(base.stdout)), rng.randrange(min(len(base.stdout), 5000))}
+        cand = sorted(cand)
+        rng.shuffle(cand)
+        for c in cand[:1 if quick else 4]:
+            io_runs.append(("epipe=%d" % c, "stdout_reader_gone"))
+    for (spec, kind) in io_runs:
+        p2 = core.Plan.from_json(json.loads(json.dumps(plan.to_json())))
+        p2.iofault = spec
+        if rng.random() < 0.3:
+            p2.signals = [rng.randrange(0, n + 1)]
+        res = run_with(scn, p2)
+        cr.faults[kind] += 1
+        if b"No space left on device" in res.stderr:
+            cr.probes["enospc_reported_by_extraction"] += 1
+        vs = account(res, p2, kind)
+        if not vs and kind == "stdout_reader_gone" and not res.trace.signals_delivered:
+            k = int(spec.split("=")[1])
+            if res.stdout != base.stdout[:k]:
+                rp = {"scenario": scn.to_json(), "plan": p2.as_replay(res.trace).to_json(), "class": "stdout_not_a_prefix_after_epipe", "descr": descr,
+                      "expect_stdout_b64": __import__("base64").b64encode(base.stdout[:k]).decode()}
+                cr.violations.append(Violation("stdout_not_a_prefix_after_epipe", "stdout accepted %d bytes then EPIPE; the %d bytes written are not the "
+                                               "first %d bytes of the fault-free output" % (k, len(res.stdout), k), rp))
     if True:
         cr.sample = {"argv": scn.argv, "sources": descr, "base_steps": n, "policy": plan.policy,
-                     "signal_steps_tried": "all 0..N" if not quick else "stratified sample"}
+                     "signal_steps_tried": "all 0..N" if not quick else "stratified sample", "io_faults_tried": [s_ for (s_, _) in io_runs]}
     return cr
 
 
@@ -274,7 +307,12 @@ def classes_of(rp):
     scn = core.Scenario.from_json(rp["scenario"])
     plan = core.Plan.from_json(rp["plan"])
     res = run_with(scn, plan)
-    return set(c for (c, _) in evaluate(res))
+    cl = set(c for (c, _) in evaluate(res))
+    if not cl and rp.get("expect_stdout_b64") is not None:
+        import base64
+        if res.stdout != base64.b64decode(rp["expect_stdout_b64"]):
+            cl.add("stdout_not_a_prefix_after_epipe")
+    return cl
 
 
 def replay(rp):
@@ -322,7 +360,9 @@ def minimise(rp, cls):
 RULE = ("one case = 1..3 compressed/archived journal or evtx sources (shipped NoEvents.evtx, Kernel-PnP evtx, "
         "Ubuntu22 journal; containers gz/bz2/xz/lz4/tar; 25% truncated so extraction fails half-way), optionally a text "
         "source; a base run without signal plus SIGINT delivered at step k for k in a stratified sample of the "
-        "temp-file life cycle (quick) or every k in 0..N (thorough), 15% with a second SIGINT. non-trivial = every "
+        "temp-file life cycle (quick) or every k in 0..N (thorough), 15% with a second SIGINT; plus runs in which "
+        "TMPDIR fills up after N bytes (ENOSPC, N on 0/1/64KiB edges/random) or stdout's reader goes away after N bytes "
+        "(EPIPE), 30% of them with a SIGINT as well. non-trivial = every "
         "run (each ends in process exit with a private TMPDIR inspected); distinct = (scenario, signal steps, decision sequence)")
 ASSUMPTIONS = ["SIGINT is delivered from handler registration onward (before that the default action kills the process and no temp file exists yet)",
                "the handler closure runs on a dedicated thread, serially per signal, as the ctrlc crate does",
